@@ -125,11 +125,31 @@ func (x *Exec) step(st *State, in ssa.Instruction) bool {
 		return false
 	case *ssa.RunDefers:
 		if len(fr.defers) > 0 {
-			panic(unsupported("deferred calls"))
+			// run the most recently deferred call by inlining it, then come back to this
+			// instruction for the next one (deferred calls with results or recover are not modelled)
+			d := fr.defers[len(fr.defers)-1]
+			fr.defers = fr.defers[:len(fr.defers)-1]
+			fv, ok := d.fn.(FuncV)
+			if !ok || fv.Fn == nil || len(fv.Fn.Blocks) == 0 {
+				panic(unsupported("deferred call of a function without body"))
+			}
+			fr.ip--
+			x.inlined[shortPkg(FuncKey(fv.Fn))] = true
+			x.pushFrame(st, fv.Fn, d.args, nil, fv.Bindings)
+			return true
 		}
 		return true
 	case *ssa.Defer:
-		panic(unsupported("defer"))
+		c := v.Common()
+		if c.IsInvoke() {
+			panic(unsupported("deferred interface method call"))
+		}
+		var args []Value
+		for _, a := range c.Args {
+			args = append(args, x.val(st, a))
+		}
+		fr.defers = append(append([]deferred(nil), fr.defers...), deferred{call: v, args: args, fn: x.val(st, c.Value)})
+		return true
 	case *ssa.Go:
 		panic(unsupported("go statement"))
 	case *ssa.Select:
